@@ -102,10 +102,10 @@ func (rg *rig) newUploadObject(rng *rand.Rand, up *uploadPath, tag string) *obje
 }
 
 // localRead reads the entry back from the front end itself.
-func (rg *rig) localRead(ctx context.Context, s *lib.Server, o *object, rng *rand.Rand) (*op, outcome) {
+func (rg *rig) localRead(s *lib.Server, o *object, rng *rand.Rand) (*op, outcome) {
 	ops := getOps(o.kind)
 	p := ops[rng.IntN(len(ops))]
-	return p, p.run(ctx, rg, s, o)
+	return p, rg.runOp(p, s, o)
 }
 
 // cacheFDs lists open file descriptors of this process that point into the
@@ -159,7 +159,7 @@ func (w *world) uploadersIdle() (bool, int, int) {
 // in a form from which a peer instance reads back the identical entry.
 func (rg *rig) writeCase(up *uploadPath, id string, rng *rand.Rand) {
 	r := rg.w.r
-	ctx, cancel := context.WithTimeout(context.Background(), 120*time.Second)
+	ctx, cancel := context.WithTimeout(context.Background(), opWatchdog)
 	defer cancel()
 	o := rg.newUploadObject(rng, up, id)
 	det := &readDetail{Rig: rg.name, Case: id, Op: up.name, Plan: "healthy backend", Object: o.String(), Expect: "exactly one upload; peer reads the identical entry"}
@@ -197,8 +197,11 @@ func (rg *rig) writeCase(up *uploadPath, id string, rng *rand.Rand) {
 	r.Count("write." + rg.name + "/" + up.name + ".accepted")
 
 	// The reference for "identical": what the accepting instance serves.
-	lop, lout := rg.localRead(ctx, rg.front, o, rng)
+	lop, lout := rg.localRead(rg.front, o, rng)
 	want := o
+	if lout.class == "watchdog" {
+		return
+	}
 	if lout.class != "hit" {
 		r.Violation(rg.key(up.name, "write-through", "local-read-failed"),
 			fmt.Sprintf("%s: an entry accepted through %s is not served locally afterwards (%s: %s)", rg.name, up.name, lop.name, lout), det)
@@ -257,10 +260,13 @@ func (rg *rig) writeCase(up *uploadPath, id string, rng *rand.Rand) {
 		r.Inconclusive(rg.name + ": cannot start the peer instance: " + err.Error())
 		return
 	}
-	pop, pout := rg.localRead(ctx, peer, want, rng)
+	pop, pout := rg.localRead(peer, want, rng)
 	log("peer %s -> %s", pop.name, pout)
 	r.Eval()
 	r.Count("peer." + rg.name + "/" + pop.name + "." + pout.class)
+	if pout.class == "watchdog" {
+		return
+	}
 	if pout.class != "hit" {
 		r.Violation(rg.key(up.name, "write-through", "peer-cannot-read"),
 			fmt.Sprintf("%s: a peer instance (same storage mode, same backend, empty cache) cannot read the entry uploaded through %s: %s -> %s",
@@ -333,7 +339,7 @@ func (w *world) checkOnce() {
 // local entry must stay correct.
 func (rg *rig) uploadFaultCase(up *uploadPath, plan *upPlan, id string, rng *rand.Rand) {
 	r := rg.w.r
-	ctx, cancel := context.WithTimeout(context.Background(), 120*time.Second)
+	ctx, cancel := context.WithTimeout(context.Background(), opWatchdog)
 	defer cancel()
 	o := rg.newUploadObject(rng, up, id)
 	det := &readDetail{Rig: rg.name, Case: id, Op: up.name, Plan: "upload fault " + plan.label, Object: o.String(), Expect: "local entry intact; nothing leaked"}
@@ -359,7 +365,10 @@ func (rg *rig) uploadFaultCase(up *uploadPath, plan *upPlan, id string, rng *ran
 	if plan.act == "stall" {
 		rg.be.stalls().releaseAll()
 	}
-	lop, lout := rg.localRead(ctx, rg.front, o, rng)
+	lop, lout := rg.localRead(rg.front, o, rng)
+	if lout.class == "watchdog" {
+		return
+	}
 	if lout.class != "hit" {
 		r.Violation(rg.key(up.name, "upload-"+plan.label, "local-read-failed"),
 			fmt.Sprintf("%s: after a failed write-through (%s) the locally accepted entry is not served (%s: %s)", rg.name, plan.label, lop.name, lout), det)
@@ -402,8 +411,6 @@ func uploadPlansFor(family string) []*upPlan {
 // resumes nothing is left open.
 func (rg *rig) fullQueueCase(id string, rng *rand.Rand) {
 	r := rg.w.r
-	ctx, cancel := context.WithTimeout(context.Background(), 120*time.Second)
-	defer cancel()
 	rg.noteCase("write/full-queue")
 	stall := &upPlan{label: "stall", act: "stall"}
 	var objs []*object
@@ -412,7 +419,15 @@ func (rg *rig) fullQueueCase(id string, rng *rand.Rand) {
 		up := paths[i%len(paths)]
 		o := rg.newUploadObject(rng, up, fmt.Sprintf("%s-%d", id, i))
 		rg.be.setUploadPlan(o.hash, stall)
-		if err := up.do(ctx, rg, o); err != nil {
+		ctx, cancel := context.WithTimeout(context.Background(), opWatchdog)
+		err := up.do(ctx, rg, o)
+		expired := ctx.Err() != nil
+		cancel()
+		if expired {
+			r.Inconclusive(rg.name + ": an upload did not finish within the watchdog (full-queue scenario)")
+			return
+		}
+		if err != nil {
 			r.Violation(rg.key(up.name, "full-queue", "upload-rejected"),
 				fmt.Sprintf("%s: local upload %d through %s failed while the backend stalls uploads: %v", rg.name, i, up.name, err), map[string]any{"case": id})
 			return
@@ -448,7 +463,10 @@ func (rg *rig) fullQueueCase(id string, rng *rand.Rand) {
 	})
 	// local behaviour stays correct
 	for _, o := range objs {
-		lop, lout := rg.localRead(ctx, rg.front, o, rng)
+		lop, lout := rg.localRead(rg.front, o, rng)
+		if lout.class == "watchdog" {
+			continue
+		}
 		if ok, why := verifyHit(lop, o, lout, true); lout.class != "hit" || !ok {
 			r.Violation(rg.key(lop.name, "full-queue", "local-read-wrong"),
 				fmt.Sprintf("%s: blob uploaded while the upload queue was full is not served correctly locally: %s %s", rg.name, lout, why), map[string]any{"case": id, "object": o.String()})
